@@ -1193,7 +1193,7 @@ fn gen_loss(args: &Args, emit: &mut dyn FnMut(String)) {
         let b = if fec == "raptor" { *rng.pick(&[4u32, 5, 6]) } else { *rng.pick(&[2u32, 3, 4, 6]) };
         let par = if fec == "nocode" { 0 } else { rng.range(1, 3) };
         let eb = (e * b) as u64;
-        let len = rng.range(1, eb * 5 + 3);
+        let len = if rng.chance(1, 25) { 0 } else { rng.range(1, eb * 5 + 3) };
         let (xk, xa) = match rng.below(3) {
             0 => ("sub", rng.range(60, 97)),
             1 => ("lossdup", rng.range(70, 97)),
@@ -1227,7 +1227,7 @@ fn gen_carousel(args: &Args, emit: &mut dyn FnMut(String)) {
         let car = *rng.pick(&["d0", "d50", "i100"]);
         let mut osecs = Vec::new();
         for k in 0..nobj {
-            osecs.push(format!("O {} {} 0 1", rng.range(1, (e * b) as u64 * 3), k + ci));
+            osecs.push(format!("O {} {} 0 1", if rng.chance(1, 10) { 0 } else { rng.range(1, (e * b) as u64 * 3) }, k + ci));
         }
         let head = format!(
             "V fec={} e={} b={} par={} cenc=null fti={} icenc={} mode={} il={} once=1 maxerr=0 cache=10485760 md5=1 tc=1 bld=S opn=1 car={} fcar={} idlems=300 maxpk={} ; {}",
